@@ -118,6 +118,11 @@ class World:
                 body.append(Stmt('catch', how=how, target=g, multi=False, via='direct' if how == 'local' else 'other'))
             elif r < 0.80 and depth < 2:
                 body.append(Stmt('for', n=rng.randint(0, 2), body=self.gen_body(f, depth + 1, budget), var='ijk'[depth], loop=rng.choice(('for', 'while'))))
+            elif r < 0.84 and depth < 2:
+                labels = rng.sample(['alpha', 'beta', 'gamma', 'delta', 'omega', 'kappa', 'sigma', 'zeta'], rng.randint(3, 6))
+                dflt = rng.random() < 0.6
+                pick = rng.randint(0, len(labels) - (0 if dflt else 1))      # index len(labels) = a value no case names -> default
+                body.append(Stmt('sswitch', labels=labels, dflt=dflt, pick=pick, cases=[[Stmt('simple', multi=False)] for _ in range(len(labels) + (1 if dflt else 0))]))
             elif r < 0.90 and depth < 2:
                 body.append(Stmt('if', cond=rng.random() < 0.5, then=self.gen_body(f, depth + 1, budget), els=self.gen_body(f, depth + 1, budget) if rng.random() < 0.6 else None))
             elif depth == 0:
@@ -141,7 +146,7 @@ class World:
             if r < 0.4: em.put('')
             elif r < 0.7: em.put('// pad %d' % rng.randint(0, 999))
             elif r < 0.8: em.put('/* block'); em.put('   comment */')
-            elif r < 0.9: em.put('#define PAD%d_%d %d' % (len(em.lines), rng.randint(0, 99), rng.randint(0, 9)))
+            elif r < 0.9: em.put('#define PAD_%s_%d_%d %d' % (re.sub(r'[^a-z0-9]', '', em.name), len(em.lines), rng.randint(0, 99), rng.randint(0, 9)))
             else: em.put('#if 0'); em.put('this text is skipped'); em.put('#endif')
 
     def put_tokens(self, em, toks, multi, ind):
@@ -210,6 +215,18 @@ class World:
             if s.els is not None:
                 em.put(ind + '} else {')
                 self.emit_body(em, f, s.els, ind + '  ')
+            s.end = em.put(ind + '}')
+        elif s.kind == 'sswitch':
+            s.mid = self.mid()
+            val = s.labels[s.pick] if s.pick < len(s.labels) else 'nomatch'
+            s.lo = s.hi = em.put('%sM(%d); sk = "%s"; switch (sk) {' % (ind, s.mid, val))
+            for ci, lab in enumerate(s.labels):
+                em.put('%s  case "%s":' % (ind, lab))
+                self.emit_body(em, f, s.cases[ci], ind + '    ')
+                em.put('%s    break;' % ind)
+            if s.dflt:
+                em.put('%s  default:' % ind)
+                self.emit_body(em, f, s.cases[len(s.labels)], ind + '    ')
             s.end = em.put(ind + '}')
         elif s.kind == 'anondef':
             s.mid = self.mid()
@@ -302,13 +319,14 @@ class World:
         # text
         for p in progs:
             em = Emitter('g/%s.c' % p); self.files[em.name] = em
+            if getattr(self, 'pragma', {}).get(p): em.put('#pragma save_binary')      # used by C17
             self.pad(em, 0, 3)
             if self.inherit.get(p): em.put('inherit "/g/%s";' % self.inherit[p])
             else: em.put('inherit "/mk";')
-            em.put('int g%s; mixed ga; int zero;' % p)
+            em.put('int g%s; mixed ga; int zero; string sk;' % p)
             if self.fpvars.get(p): em.put('function %s;' % ', '.join('fp%d' % i for i in range(self.fpvars[p])))
             if p in ('m', 'o'): em.put('int warm() { return 0; }')
-            if p == 'm' and rng.random() < (0.1 if self.tier == 'quick' else 0.2):
+            if p == 'm' and not getattr(self, 'no_big_pad', False) and rng.random() < (0.1 if self.tier == 'quick' else 0.2):
                 # enough lines to cross the 15-bit / 16-bit line counters
                 for i in range(rng.choice((33000, 66000))): em.put('')
                 self.big_pad = True
@@ -401,6 +419,11 @@ class World:
             self.seg(s.mid, s.file, s.lo, s.hi)
             self.exec_body(s.then if s.cond else (s.els or []), f, objprog)
             self.seg(None, s.file, s.lo, s.end)             # leaving the if: a jump that belongs to the compound statement
+        elif s.kind == 'sswitch':
+            self.seg(s.mid, s.file, s.lo, s.end)           # the table lookup belongs to the switch statement
+            if s.pick < len(s.labels): self.exec_body(s.cases[s.pick], f, objprog)
+            elif s.dflt: self.exec_body(s.cases[len(s.labels)], f, objprog)
+            self.seg(None, s.file, s.lo, s.end)           # break / fall out of the switch
         elif s.kind == 'eval':
             self.seg(s.mid, s.file, s.lo, s.hi)
             d = s.defstmt
